@@ -306,7 +306,21 @@ func RunRegistry(behs [][]Step, tr *Trace, env Env, sum *Summary) {
 					if b == "bad" {
 						pw = "nope"
 					}
-					s.svcSend(a, map[string]any{"Head": map[string]any{"Type": "Register"}, "Body": map[string]any{"Password": pw}})
+					first := map[string]any{"Head": map[string]any{"Type": "Register"}, "Body": map[string]any{"Password": pw}}
+					if b == "bad" {
+						// a stranger's first message: a wrong password, or one that leaves the password (and more) out
+						switch (si + bi) % 5 {
+						case 1:
+							first = map[string]any{}
+						case 2:
+							first = map[string]any{"Head": map[string]any{"Type": "Register"}}
+						case 3:
+							first = map[string]any{"Body": map[string]any{}}
+						case 4:
+							first = map[string]any{"Head": map[string]any{"Type": "Register"}, "Body": map[string]any{}}
+						}
+					}
+					s.svcSend(a, first)
 					if b == "bad" {
 						// a client that keeps trying: 0, 2 or 4 more wrong passwords on the same connection (if it is still open)
 						for extra := (si + bi) % 3 * 2; extra > 0; extra-- {
